@@ -336,6 +336,13 @@ class History:
         if n and r.random() < 0.15:
             pcts[r.randrange(n)] += r.choice([1, -1 if pcts[0] > 0 else 1, 10001])
             pcts = [max(0, p) for p in pcts]
+        if n and n < 60 and r.random() < 0.25:
+            # an empty (0 %) milestone at an odd place: out of order, in the past, beyond the limit
+            idx = r.randrange(n + 1)
+            odd = r.choice([rounds[-1] + 1000, max(0, self.round - 5), self.round + 26280001, base, rounds[0]])
+            rounds.insert(idx, odd)
+            pcts.insert(idx, 0)
+            n += 1
         a = []
         for i in range(n):
             a += [rounds[i], pcts[i]]
